@@ -88,7 +88,7 @@ def check_case(case, ctr):
             bad('context-neighbors-raw', sorted(gotset), sorted(rawset), query=q)
             break
         # other spellings of the same object set: repeats, other order, one-shot iterables, sets
-        if q and case.n <= 20:
+        if q and case.n <= 20 and case.labeling == 'asc' and case.variant in ('fresh', 'used'):
             forms = (('repeated', q + q[::-1]), ('doubled-first', [q[0]] + q),
                      ('generator', (x for x in q)), ('iterator', iter(tuple(reversed(q)))),
                      ('frozenset', frozenset(q)), ('dict-keys', dict.fromkeys(q).keys()))
